@@ -25,58 +25,83 @@ def main():
     from pyworkers.persistent_remote import PersistentRemoteWorker
     from pyworkers.remote_server import spawn_server
     viol, obs = [], {}
+    want = sc.get('lemma') or ''
     server = spawn_server(('127.0.0.1', 0))
     try:
-        # A: child delivers 2 results then is SIGKILLed while the consumer is blocked
-        w = PersistentRemoteWorker(T.square, host=server.addr)
-        got, done = [], threading.Event()
-        threading.Thread(target=consume, args=(w, got, done), daemon=True).start()
-        w.enqueue(2); w.enqueue(3)
-        time.sleep(0.7)
-        os.kill(w.pid, signal.SIGKILL)
-        ok = done.wait(6)
-        obs['killed_after_results'] = {'got': list(got), 'ended': ok}
-        if not ok:
-            viol.append(f'backend SIGKILLed after delivering {got}: results_iter() is still blocked 6 s later (no end of stream)')
-        elif got != [4, 9]:
-            viol.append(f'results are not a correct prefix: {got}')
-        # B: uncooperative backend, force-terminated through the server
-        w2 = PersistentRemoteWorker(T.swallow_then_square, host=server.addr)
-        got2, done2 = [], threading.Event()
-        threading.Thread(target=consume, args=(w2, got2, done2), daemon=True).start()
-        w2.enqueue(5)
-        time.sleep(0.7)
-        res = {}
-        t = threading.Thread(target=lambda: res.update(r=w2.terminate(timeout=0.5, force=True)), daemon=True)
-        t.start(); t.join(10)
-        ok2 = done2.wait(6)
-        obs['force_terminated'] = {'got': list(got2), 'ended': ok2, 'terminate': res.get('r'), 'has_error': w2.has_error if not t.is_alive() else None}
-        if not ok2:
-            viol.append('backend force-killed by the server (final outcome fabricated server-side): results_iter() is still blocked 6 s later (no end marker forwarded or fabricated)')
-        # C: graceful terminate landing in the backend between "counter incremented" and "result sent" (line injector)
-        os.environ['PYVC_INJECT'] = f"persistent_remote.py|_send_result|send_msg(self._socket, (self._counter, True|WTE|{os.getpid()}|before"
+      if not want or 'L5' in want:
+        # D: a graceful terminate reaching the backend before it has run _init_child() (line injector): _cleanup must still work and the outcome must arrive
+        os.environ['PYVC_INJECT'] = f"remote.py|_run_backend|self._init_child()|WTE|{os.getpid()}|before"
         os.environ['PYTHONPATH'] = os.path.join(os.path.dirname(os.path.abspath(__file__)), 'inject') + os.pathsep + os.environ.get('PYTHONPATH', '')
-        server2 = spawn_server(('127.0.0.1', 0))
+        server4 = spawn_server(('127.0.0.1', 0))
         try:
-            w3 = PersistentRemoteWorker(T.square, host=server2.addr)
-            got3, done3 = [], threading.Event()
-            threading.Thread(target=consume, args=(w3, got3, done3), daemon=True).start()
-            w3.enqueue(6)
-            ok3 = done3.wait(6)
-            dead = w3.wait(5)
+            w4 = PersistentRemoteWorker(T.square, host=server4.addr)
+            dead = w4.wait(6)
             time.sleep(0.3)
-            obs['terminate_between_count_and_send'] = {'got': list(got3), 'ended': ok3, 'dead': dead, 'has_error': w3.has_error, 'error': repr(w3.error)}
-            if not ok3:
-                viol.append('terminate landing between counter increment and send in the backend: results_iter() still blocked')
-            if dead and w3.has_error is None:
-                viol.append('terminate landing between counter increment and send in the backend: the front-end thread dies on its own assert '
-                            '(remote_counter == counter) and the dead worker reports has_error None')
+            from pyworkers.worker import WorkerTerminatedError
+            obs['terminate_before_init_child'] = {'dead': dead, 'has_error': w4.has_error, 'error': repr(w4.error)}
+            if not dead:
+                viol.append('terminate landing before _init_child() in the backend: the worker did not die')
+                w4.terminate(timeout=1)
+            elif not isinstance(w4.error, WorkerTerminatedError):
+                viol.append(f'terminate landing before _init_child() in the remote backend: _cleanup crashed on the missing _counter, the outcome was never sent - '
+                            f'dead worker with has_error={w4.has_error!r}, error={w4.error!r} instead of WorkerTerminatedError')
         finally:
             os.environ.pop('PYVC_INJECT', None)
             try:
-                server2.terminate(timeout=2, force=True)
+                server4.terminate(timeout=2, force=True)
             except Exception:
                 pass
+      if not want or 'L5' not in want:
+          # A: child delivers 2 results then is SIGKILLed while the consumer is blocked
+          w = PersistentRemoteWorker(T.square, host=server.addr)
+          got, done = [], threading.Event()
+          threading.Thread(target=consume, args=(w, got, done), daemon=True).start()
+          w.enqueue(2); w.enqueue(3)
+          time.sleep(0.7)
+          os.kill(w.pid, signal.SIGKILL)
+          ok = done.wait(6)
+          obs['killed_after_results'] = {'got': list(got), 'ended': ok}
+          if not ok:
+              viol.append(f'backend SIGKILLed after delivering {got}: results_iter() is still blocked 6 s later (no end of stream)')
+          elif got != [4, 9]:
+              viol.append(f'results are not a correct prefix: {got}')
+          # B: uncooperative backend, force-terminated through the server
+          w2 = PersistentRemoteWorker(T.swallow_then_square, host=server.addr)
+          got2, done2 = [], threading.Event()
+          threading.Thread(target=consume, args=(w2, got2, done2), daemon=True).start()
+          w2.enqueue(5)
+          time.sleep(0.7)
+          res = {}
+          t = threading.Thread(target=lambda: res.update(r=w2.terminate(timeout=0.5, force=True)), daemon=True)
+          t.start(); t.join(10)
+          ok2 = done2.wait(6)
+          obs['force_terminated'] = {'got': list(got2), 'ended': ok2, 'terminate': res.get('r'), 'has_error': w2.has_error if not t.is_alive() else None}
+          if not ok2:
+              viol.append('backend force-killed by the server (final outcome fabricated server-side): results_iter() is still blocked 6 s later (no end marker forwarded or fabricated)')
+          # C: graceful terminate landing in the backend between "counter incremented" and "result sent" (line injector)
+          os.environ['PYVC_INJECT'] = f"persistent_remote.py|_send_result|send_msg(self._socket, (self._counter, True|WTE|{os.getpid()}|before"
+          os.environ['PYTHONPATH'] = os.path.join(os.path.dirname(os.path.abspath(__file__)), 'inject') + os.pathsep + os.environ.get('PYTHONPATH', '')
+          server2 = spawn_server(('127.0.0.1', 0))
+          try:
+              w3 = PersistentRemoteWorker(T.square, host=server2.addr)
+              got3, done3 = [], threading.Event()
+              threading.Thread(target=consume, args=(w3, got3, done3), daemon=True).start()
+              w3.enqueue(6)
+              ok3 = done3.wait(6)
+              dead = w3.wait(5)
+              time.sleep(0.3)
+              obs['terminate_between_count_and_send'] = {'got': list(got3), 'ended': ok3, 'dead': dead, 'has_error': w3.has_error, 'error': repr(w3.error)}
+              if not ok3:
+                  viol.append('terminate landing between counter increment and send in the backend: results_iter() still blocked')
+              if dead and w3.has_error is None:
+                  viol.append('terminate landing between counter increment and send in the backend: the front-end thread dies on its own assert '
+                              '(remote_counter == counter) and the dead worker reports has_error None')
+          finally:
+              os.environ.pop('PYVC_INJECT', None)
+              try:
+                  server2.terminate(timeout=2, force=True)
+              except Exception:
+                  pass
     finally:
         try:
             server.terminate(timeout=2, force=True)
